@@ -19,5 +19,5 @@ CONSTANTS
   Owner <- OwnA
   AnyTurn = TRUE
 SPECIFICATION XFairSpec
-INVARIANTS XTypeOK PendingBound TypeOK RealSafe FindingStrict
+INVARIANTS XTypeOK PendingBound TypeOK RealSafe
 PROPERTIES Completes WakeSeen OpSeen TimerSeen
